@@ -162,6 +162,7 @@ def run(facts, R):
             hc.span, "select!{ reader_task(..), conn_token.cancelled() }")
 
     end_signal_rule(facts, R)
+    handler_token_rule(facts, R)
 
     # ---------------- registry-pairing / hooks-before-reader -------------------------------------------------------
     hooks = [(i, t) for i, t in hc.calls() if t["callee"]["name"] == "call" and "on_connect" in render(s.op(t["args"][0]))]
@@ -243,6 +244,61 @@ def run(facts, R):
     R.check(okao, "drain-shape", hc.path, "writer held through AbortOnDrop", "AbortOnDrop constructions: %s" % [b.path for b, _, _, _ in ao], hc.span)
     ad = facts.body("<websocket_server::AbortOnDrop<T> as std::ops::Drop>::drop")
     R.check(any(t["callee"]["name"] == "abort" for i, t in ad.calls()), "drain-shape", ad.path, "Drop aborts the task", "AbortOnDrop::drop does not abort", ad.span)
+
+
+def handler_token_rule(facts, R):
+    """(handlers-observe-connection-token) the cancel signal every handler is given - inline on the reader, or on a blocking thread -
+    wraps a clone of the connection's token, on every path; a fresh token would never be cancelled when the connection ends"""
+    from analysis.sym import split_eval
+    n = 0
+    for b in list(facts.bodies.values()):
+        if not b.path.startswith(WS):
+            continue
+        bs = None
+        for i, j, st in b.assigns():
+            rv = st["rv"]
+            if not (rv.get("agg") == "adt" and rv["adt"].endswith("TokenSignal") and rv["ops"]) or i not in b.live_blocks():
+                continue
+            bs = bs or Sym(b)
+            n += 1
+            alts = split_eval(bs, i, j, lambda v_, rv=rv: v_.op(rv["ops"][0])) or [({}, bs.op(rv["ops"][0]))]
+            vals = []
+            for _, v in alts:
+                vals += _through_capture(facts, b, v)
+            ok = bool(vals) and all("conn_token" in render_n(v) for v in vals)
+            R.check(ok, "handlers-observe-connection-token", b.path, "the handler's cancel signal is the connection token",
+                    "a handler's CallContext is built on %s: on that path the signal is not the connection's token, so the handler does not observe cancellation when the "
+                    "connection ends" % [render_n(v)[:100] for v in vals if "conn_token" not in render_n(v)][:3], st.get("span"), "TokenSignal(conn_token.clone())")
+    R.floor("handlers-observe-connection-token", n, 2, "TokenSignal constructions (inline and off-reader)")
+
+
+def _through_capture(facts, b, v, depth=0):
+    """values `v` can stand for when it is (a field of) a variable captured by closure b: what the parent put into the capture"""
+    from analysis.sym import split_eval
+    base = v
+    proj = []
+    while base[0] == "field":
+        proj.append(base[2])
+        base = base[1]
+    if not (base[0] == "arg" and base[1] == 1 and proj and "::{closure#" in b.path and depth < 3):
+        return [v]
+    cap = proj[-1]
+    rest = list(reversed(proj[:-1]))
+    parent = b.path.rsplit("::{closure#", 1)[0]
+    pb = facts.bodies.get(parent)
+    if pb is None:
+        return [v]
+    ps = Sym(pb)
+    out = []
+    for i, j, st in pb.assigns():
+        rv = st["rv"]
+        if rv.get("agg") in ("closure", "coroutine") and rv.get("def") == b.path and cap in (rv.get("fields") or []) and i in pb.live_blocks():
+            op = rv["ops"][rv["fields"].index(cap)]
+            for _, pv in (split_eval(ps, i, j, lambda v_, op=op: v_.op(op)) or [({}, ps.op(op))]):
+                for f in rest:
+                    pv = ps._field(pv, f)
+                out += _through_capture(facts, pb, pv, depth + 1)
+    return out or [v]
 
 
 def end_signal_rule(facts, R):
